@@ -154,6 +154,37 @@ fn run<const N: usize>() {
                         *e = *ts;
                     }
                 }
+                // "afterwards" is not only "right afterwards": whatever single operation of the universe the set handles
+                // next, what it just purged must still be refused
+                let mut look: Vec<String> = vec![];
+                if !purged.is_empty() {
+                    'look: for (_, next_ts) in universe.iter() {
+                        for next_k in &keys {
+                            for next_del in [false, true] {
+                                for s in 0..N {
+                                    let mut c = post.clone();
+                                    if next_del {
+                                        c.delete_with_source(s, *next_k, *next_ts);
+                                    } else {
+                                        c.insert_with_source(s, *next_k, *next_ts);
+                                    }
+                                    for (_, tp) in &purged {
+                                        for (_, ts) in universe.iter().filter(|(_, t)| t.node() == tp.node() && *t <= *tp) {
+                                            for k in &keys {
+                                                refused_probes += 1;
+                                                if c.will_apply(*k, *ts) {
+                                                    look.push(format!("after purging the delete at {} and then handling {} of key {next_k} at {} through source {s}, an operation of the same node on key {k} at {} is accepted again",
+                                                                      scale.ts_json(tp), if next_del { "a delete" } else { "an insert" }, scale.ts_json(next_ts), scale.ts_json(ts)));
+                                                    break 'look;
+                                                }
+                                            }
+                                        }
+                                    }
+                                }
+                            }
+                        }
+                    }
+                }
                 let live_pre = live_view(scale, &pre, &keys);
                 let live_post = live_view(scale, &post, &keys);
                 let t_pre = tombstones(&pre);
@@ -170,6 +201,10 @@ fn run<const N: usize>() {
                 ret_sorted.sort();
                 if gone != ret_sorted {
                     why.push("purge_old_deletes returned something other than the tombstones it removed");
+                }
+                let look_text = look.join("; ");
+                if !look.is_empty() {
+                    why.push(&look_text);
                 }
                 observed = json!({"purged": purged.iter().map(|(k, ts)| json!([k, scale.ts_json(ts)])).collect::<Vec<_>>(), "live": live_post});
                 if !why.is_empty() {
